@@ -2,6 +2,7 @@ import DVP.Lemmas.LoopFixed
 import DVP.Lemmas.LoopEquiv
 import DVP.Lemmas.RK
 import DVP.Lemmas.RKEquiv
+import DVP.Lemmas.Run
 /-!
 # C04 — fixed-step methods take the requested step wherever the time axis sits
 
@@ -18,8 +19,9 @@ does not see the time at all (`autonomous_step_ignores_time`) and that the step 
 problem is the mirrored step (`step_reflection`).  Known finding P8 (implicit fixed-step methods): the step
 controller runs with a zero error estimate and *grows* the step — the parenthesis of the property
 ("an implicit method may only shorten a step whose stage equations fail to converge") is false of
-the code.  Checked on the implementation only (states are not part of the loop model): that the
-computed states of shifted / reflected runs agree to rounding level.
+the code.  The computed STATES of shifted / reflected fixed-step runs are part of the whole-run model `DV.Run`
+(`shifted_run_computes_same_states`, `reflected_run_computes_same_states`: identical in exact arithmetic, so what
+the implementation may differ by is rounding); for adaptive methods the agreement is measured only.
 -/
 namespace DVP.C04
 open DV DV.Loop DVP.Loop
@@ -101,6 +103,47 @@ theorem step_reflection {V : Type} [AddCommGroup V] [Module ℚ V] (f : ℚ → 
     let o := DV.RK.rkStepExplicit (DVP.RK.modOps (V := V)) f t y h c A b fsal stages
     o'.dState = o.dState ∧ o'.finalRhs = -o.finalRhs ∧ o'.stages = o.stages.map (fun k => -k) :=
   DVP.RK.rkStep_reflection f t y h c A b fsal stages
+
+/-- **Shifting the whole span of an autonomous system changes no computed state** (fixed-step explicit
+Runge–Kutta and splitting methods, exact arithmetic): the run of the system shifted by `c`, to the shifted
+target, records the shifted times and exactly the same states, whatever the span, the step, the number of
+steps and the earlier calls.  `inc` is the increment of one step; the hypothesis is that it does not see
+the time, which `rk_increment_ignores_time_when_autonomous` provides for every table and every `g`. -/
+theorem shifted_run_computes_same_states {V : Type} (cfg : Cfg ℚ) (add : V → V → V) (inc : ℚ → V → ℚ → V) (c : ℚ)
+    (hinc : ∀ t y h, inc (t + c) y h = inc t y h) (s : DV.Run.SysY ℚ V) (target : ℚ) (fuel : Nat) :
+    let a := DV.Run.integrate cfg add inc { sys := shiftSys c s.sys, ys := s.ys } (target + c) fuel
+    let b := DV.Run.integrate cfg add inc s target fuel
+    a.ys = b.ys ∧ a.sys.ts = b.sys.ts.map (· + c) := by
+  simp only [DVP.Run.integrate_shift_states cfg add inc c hinc s target fuel]
+  simp [shiftSys]
+
+/-- the hypothesis of the previous theorem for the shipped step maps: explicit Runge–Kutta tables and
+drift/kick compositions applied to an autonomous right-hand side -/
+theorem rk_increment_ignores_time_when_autonomous {V : Type} (ops : DV.RK.VOps ℚ V) (g : V → V) (c : List ℚ) (A : List (List ℚ))
+    (b : List ℚ) (fsal : Bool) (mm : ℚ → ℚ → V → V) (drift kick : List ℚ) (shift t : ℚ) (y : V) (h : ℚ) :
+    DV.Run.rkInc ops (fun _ y => g y) c A b fsal (t + shift) y h = DV.Run.rkInc ops (fun _ y => g y) c A b fsal t y h ∧
+    DV.Run.splitInc ops (fun _ y => g y) mm drift kick (t + shift) y h = DV.Run.splitInc ops (fun _ y => g y) mm drift kick t y h :=
+  ⟨DVP.Run.rkInc_autonomous ops g c A b fsal _ _ y h, DVP.Run.splitInc_autonomous ops g mm drift kick _ _ y h⟩
+
+/-- **Integrating the time-reflected problem backward changes no computed state** (same methods, exact
+arithmetic): the mirrored system run to the mirrored target with the step map of the time-reversed problem
+`f'(τ, y) = −f(−τ, y)` records the mirrored times and exactly the same states. -/
+theorem reflected_run_computes_same_states {V : Type} (cfg : Cfg ℚ) (add : V → V → V) (inc inc' : ℚ → V → ℚ → V)
+    (hinc : ∀ t y h, inc' (-t) y (-h) = inc t y h) (s : DV.Run.SysY ℚ V) (target : ℚ) (fuel : Nat) :
+    let a := DV.Run.integrate cfg add inc' { sys := reflSys s.sys, ys := s.ys } (-target) fuel
+    let b := DV.Run.integrate cfg add inc s target fuel
+    a.ys = b.ys ∧ a.sys.ts = b.sys.ts.map (fun t => -t) := by
+  simp only [DVP.Run.integrate_refl_states cfg add inc inc' hinc s target fuel]
+  simp [reflSys]
+
+/-- the hypothesis of the previous theorem for the shipped step maps, for EVERY right-hand side (autonomous
+or not): the increment of the time-reversed problem over the mirrored step is the same increment -/
+theorem increment_of_reversed_problem {W : Type} [AddCommGroup W] [Module ℚ W] (f : ℚ → W → W) (c : List ℚ) (A : List (List ℚ))
+    (b : List ℚ) (fsal : Bool) (mm : ℚ → ℚ → W → W) (drift kick : List ℚ) (t : ℚ) (y : W) (h : ℚ) :
+    DV.Run.rkInc (DVP.RK.modOps (V := W)) (DVP.RK.reflF f) c A b fsal (-t) y (-h) = DV.Run.rkInc (DVP.RK.modOps (V := W)) f c A b fsal t y h ∧
+    DV.Run.splitInc (DVP.RK.modOps (V := W)) (DVP.RK.reflF f) mm drift kick (-t) y (-h) =
+      DV.Run.splitInc (DVP.RK.modOps (V := W)) f mm drift kick t y h :=
+  ⟨DVP.Run.rkInc_reflection f c A b fsal t y h, DVP.Run.splitInc_reflection f mm drift kick t y h⟩
 
 /-- non-vacuity: backward over a mixed-sign span, 0.3 does not divide 0.75: requests -0.3, -0.3, -0.15 -/
 example : ((integrate (α := ℚ) { eps := 1/2^50, tolEps := 1/2^47, half := 1/2 } (construct (α := ℚ) (1/2) (-1/4) (3/10)) (-1/4)
